@@ -138,7 +138,15 @@ Fill(sh) == IF sh = <<>> THEN {RandLeaf}
             ELSE {B(op, l, r) : op \in {"and", "or"}, l \in Fill(sh[1]), r \in Fill(sh[2])}
 Skeletons == UNION {Fill(x[1]) : x \in (Shapes(3) \cup Shapes(4)) \X (1..6)}    \* six random leaf assignments per shape
 
-Chosen == IF Depth = 0 THEN Chains \cup Skeletons ELSE IF Depth >= 3 THEN {RandExpr(Depth) : i \in 1..NSample}
+\* ONE level with nine to twelve siblings that are parenthesised groups or negations: the documented limit (10) is on the nesting
+\* of '(' and '!', not on how many of them stand next to each other
+WideOf(n, k) == CASE k = 1 -> AndFold([i \in 1..n |-> B("or", RandLeaf, RandLeaf)])                 \* (a || b) && (c || a) && ...
+                  [] k = 2 -> AndFold([i \in 1..n |-> N(L(RandomElement(Leaves)))])                  \* !a && !b && ...
+                  [] k = 3 -> OrFold([i \in 1..n |-> N(L(RandomElement(Leaves)))])                   \* !a || !b || ...
+                  [] OTHER -> OrFold([i \in 1..n |-> IF i % 2 = 0 THEN N(B("and", RandLeaf, RandLeaf)) ELSE B("and", RandLeaf, RandLeaf)])
+Wide == {WideOf(n, k) : n \in 9..12, k \in 1..4}
+
+Chosen == IF Depth = 0 THEN Chains \cup Skeletons \cup Wide ELSE IF Depth >= 3 THEN {RandExpr(Depth) : i \in 1..NSample}
           ELSE IF NSample = 0 THEN Exprs(Depth) ELSE RandomSubset(NSample, Exprs(Depth))
 Init == e \in Chosen /\ vi \in 1..NVariants /\ done = FALSE
 Next == /\ ~done /\ done' = TRUE /\ UNCHANGED <<e, vi>>
